@@ -87,6 +87,67 @@ MUTANTS = [
      "            raise"),
     ("c20-revert-counter-rollback", "C20", V + "vmap_export.py",
      "                geometry_group.attrs['MYSIZE'] = variable_count\n", ""),
+    # ---- C04: junction of the HCM passes
+    ("c04-second-pass-always-flush", "C04", R + "fkm_nonlinear.py",
+     "        return self.process(samples, flush=flush)\n\n    def process(self, samples, flush=False):",
+     "        return self.process(samples, flush=True)\n\n    def process(self, samples, flush=False):"),
+    ("c04-second-pass-never-flush", "C04", R + "fkm_nonlinear.py",
+     "        return self.process(samples, flush=flush)\n\n    def process(self, samples, flush=False):",
+     "        return self.process(samples, flush=False)\n\n    def process(self, samples, flush=False):"),
+    ("c04-first-pass-zero-junction-only", "C04", R + "fkm_nonlinear.py",
+     "            and self._is_last_sample_a_turn(scalar_samples, scalar_samples[1:])\n", ""),
+    ("c04-close-strict", "C04", R + "fkm_nonlinear.py",
+     "if current_load_extent < previous_load_extent-1e-12:", "if current_load_extent <= previous_load_extent+1e-12:"),
+    ("c04-loadmax-not-carried", "C04", R + "fkm_nonlinear.py",
+     "        largest_point = self._HCM_Point(load=0)\n        previous_load = 0\n",
+     "        largest_point = self._HCM_Point(load=0)\n        previous_load = 0\n        if self._run_index >= 1:\n            self._load_max_seen = 0.0\n"),
+    ("c05-memory3-closed", "C05", R + "fkm_nonlinear.py",
+     "        _is_closed_hysteresis.append(False)             # the hysteresis is not fully closed",
+     "        _is_closed_hysteresis.append(True)             # the hysteresis is not fully closed"),
+    ("c04-plateau-not-looked-through", "C04", R + "fkm_nonlinear.py",
+     "        different_before = np.flatnonzero(samples != last)\n",
+     "        different_before = np.flatnonzero(samples != last)\n        if len(samples) > 1 and samples[-2] == last:\n            return False\n"),
+    # ---- C05: stress-strain bookkeeping
+    ("c05-memory3-flipped-from-current", "C05", R + "fkm_nonlinear.py",
+     "        _S_min = pd.concat([_S_min, -abs(previous_point.stress)])", "        _S_min = pd.concat([_S_min, -abs(current_point.stress)])"),
+    ("c05-eps-min-updated-when-rising", "C05", R + "fkm_nonlinear.py",
+     "        if previous_load < current_load_representative-1e-12:", "        if previous_load > current_load_representative-1e-12:"),
+    ("c05-secondary-from-older-point", "C05", R + "fkm_nonlinear.py",
+     "        current_point = self._proceed_on_secondary_branch(previous_point_1, current_point)",
+     "        current_point = self._proceed_on_secondary_branch(previous_point_0 if len(self._residuals) > 4 else previous_point_1, current_point)"),
+    ("c05-memory1-stays-secondary", "C05", R + "fkm_nonlinear.py",
+     "            # Proceed on primary path for the rest, which was not part of the closed hysteresis\n            current_point = self._proceed_on_primary_branch(current_point)",
+     "            # Proceed on primary path for the rest, which was not part of the closed hysteresis\n            current_point = self._proceed_on_secondary_branch(previous_point_0, current_point)"),
+    ("c05-flags-wrong-m", "C05", R + "recorders.py",
+     "        numeric_array = np.array(boolean_array).reshape(-1,1).dot(np.ones((1,m))).flatten()\n",
+     "        numeric_array = np.roll(np.array(boolean_array).reshape(-1,1).dot(np.ones((1,m))).flatten(), 1 if m > 2 else 0)\n"),
+    ("c05-mean-stress-not-zeroed", "C05", R + "recorders.py",
+     "        return np.where(self.is_zero_mean_stress_and_strain, 0, median)", "        return median"),
+    ("c05-revert-lf-per-node", "C05", R + "fkm_nonlinear.py",
+     "            new_val = np.maximum(self._epsilon_max_LF.values, current_point.strain.values)",
+     "            new_val = self._epsilon_max_LF.values if self._epsilon_max_LF.values[0] > current_point.strain.values[0] else current_point.strain.values"),
+    ("c05-strain-first-run-count", "C05", R + "fkm_nonlinear.py",
+     "        # count number of strain values in the first run of the HCM algorithm\n        if self._run_index == 1:\n            self._n_strain_values_first_run += 1\n        return current_point\n\n    def _handle_case_b",
+     "        return current_point\n\n    def _handle_case_b"),
+    # ---- C13: broadcaster
+    ("c13-no-restore-parameter", "C13", "pylife/core/broadcaster.py",
+     "        self._operand.index =self._operand_index", "        pass"),
+    ("c13-none-names-not-restored", "C13", "pylife/core/broadcaster.py",
+     "_replace_unique_string_with_none_name([obj, prm, self._obj, parameter], uuids)",
+     "_replace_unique_string_with_none_name([obj, prm, parameter], uuids)"),
+    ("c13-restore-wrong-level", "C13", "pylife/core/broadcaster.py",
+     "                    self.index_levels[name][new_index.get_level_values(name) - self._code_offsets[name]]\n                    for name in new_index.names",
+     "                    self.index_levels[name][new_index.get_level_values(name) - self._code_offsets[name]]\n                    for name in sorted(new_index.names, key=str)"),
+    ("c13-revert-code-offsets", "C13", "pylife/core/broadcaster.py",
+     "            offset += len(level)\n", "            offset += 0\n"),
+    ("c13-revert-array-keys", "C13", "pylife/core/broadcaster.py",
+     "        data = np.tile(self._obj.to_numpy(), (len(parameter), 1))\n        df = pd.DataFrame(data, columns=self._obj.index)\n",
+     "        data = np.empty((len(parameter), len(self._obj)))\n        df = pd.DataFrame(data, columns=self._obj.index).assign(**self._obj)\n"),
+    ("c13-cross-join-drops-row", "C13", "pylife/core/broadcaster.py",
+     "            obj, prm = obj.align(prm, axis=0)\n\n            if len(droplevel) > 0:",
+     "            obj, prm = obj.iloc[:-1].align(prm.iloc[:-1], axis=0) if len(obj) > 7 else obj.align(prm, axis=0)\n\n            if len(droplevel) > 0:"),
+    ("c13-wc-k-below-limit", "C13", "pylife/materiallaws/woehlercurve.py",
+     "        below_limit = np.asarray(src < ref)", "        below_limit = np.asarray(src <= ref)"),
 ]
 
 
